@@ -2651,6 +2651,44 @@ impl<Target: FreezeBuilder> FreezeBuilder for HashCompressor<Target> {
     }
 }
 
+//============ Verification hooks ============================================
+
+/// Hooks for out-of-tree verification harnesses (not part of the API).
+#[cfg(nlnetlabs_domain_verif)]
+pub mod verif_hooks {
+    use super::*;
+
+    /// Asks the static compressor to remember a name starting at `pos`.
+    pub fn static_insert<Target>(
+        compressor: &mut StaticCompressor<Target>,
+        pos: usize,
+    ) -> bool {
+        compressor.insert(pos)
+    }
+
+    /// The positions currently remembered by the static compressor.
+    pub fn static_entries<Target>(
+        compressor: &StaticCompressor<Target>,
+    ) -> &[u16] {
+        &compressor.entries[..compressor.len]
+    }
+
+    /// Asks the tree compressor to remember the root name at `pos`.
+    #[cfg(feature = "alloc")]
+    pub fn tree_insert_root<Target>(
+        compressor: &mut TreeCompressor<Target>,
+        pos: usize,
+    ) -> bool {
+        compressor.insert(core::iter::once(Label::root()), pos)
+    }
+
+    /// Whether the hash compressor would remember a label at `head`.
+    #[cfg(feature = "alloc")]
+    pub fn hash_entry_new(head: usize, tail: usize) -> Option<(u16, u16)> {
+        HashEntry::new(head, tail).map(|entry| (entry.head, entry.tail))
+    }
+}
+
 //============ Errors ========================================================
 
 /// An error occurred when attempting to add data to a message.
